@@ -569,6 +569,13 @@ def install(P):
         ser.out = TVal("s", kind="str", scalar=v if is_str(v) else display(ctx, v))
         return Ok(UNIT)
 
+    @P.summary("Serializer::serialize_unit_variant")
+    def _sunit_variant(ctx, c):
+        # (self, name, variant_index, variant) -> the variant's (renamed) name as a string
+        ser = deref(c.args[0])
+        ser.out = TVal("s", kind="str", scalar=sval(c.args[3]))
+        return Ok(UNIT)
+
     @P.summary("Serializer::serialize_bool")
     def _sbool(ctx, c):
         deref(c.args[0]).out = TVal("b", kind="bool", scalar=deref(c.args[1]))
